@@ -22,10 +22,10 @@ RULE = ('A physically consistent trajectory (own closed-form integration of a sm
         'with ValueError, or all N rows are finite unit quaternions (1e-9) and, from W_f samples after the last window, the '
         'geodesic distance (IMU variants: tilt distance) to the clean run of the same filter stays below rho_f (constants calibrated on the unchanged '
         'tree, DESIGN.md section 3/C13). Non-trivial: a window that starts after sample 20, ends at least W_f before the end and '
-        'zeroes a sensor the architecture uses; distinct = case hash.')
+        'zeroes a sensor the architecture uses; distinct = case hash. The faulty history is also fed sample by sample through the update method (up to the end of the last window): each step raises ValueError or returns a finite unit quaternion.')
 ASSUMPTIONS = ['recovery horizon W_f and tolerance rho_f per filter (and per class of zeroed sensors: gyroscope too / accelerometer / magnetometer only) are calibrated constants (>= 3x margin over the worst observed in 24000 schedules; Mahony-MARG with a magnetometer-only outage additionally by what the filter knows of the gyroscope bias)',
                'a filter that corrects at a bounded rate (Madgwick: beta rad/s) is given the time that rate needs for the worst frozen-gyro error']
-REQUIRED_LABELS = ['dropout:long_window', 'dropout:gyro_bias=known', 'dropout:gyro_bias=unknown', 'dropout:sensor=acc', 'dropout:sensor=mag', 'dropout:sensor=gyr', 'dropout:windows>=2', 'dropout:params=custom']
+REQUIRED_LABELS = ['dropout:streamed', 'dropout:long_window', 'dropout:gyro_bias=known', 'dropout:gyro_bias=unknown', 'dropout:sensor=acc', 'dropout:sensor=mag', 'dropout:sensor=gyr', 'dropout:windows>=2', 'dropout:params=custom']
 
 DT = 0.01
 # (W_f samples after the last window, rho_f rad) -- calibrated, see DESIGN.md
@@ -204,6 +204,37 @@ def evaluate(case, ctx, calibrate=None):
     if clean.shape != (n, 4) or not np.all(np.isfinite(clean)):
         ctx.label('clean_run_invalid')
         return
+    # the same faulty history sample by sample through the filter's update method: a refusal has to come from the dropped sample
+    # itself (in the batch run a NaN produced AT the dropout surfaces as a ValueError about the NEXT, valid sample and would
+    # pass for a refusal), so every step either raises ValueError -- the run ends there -- or returns a finite unit quaternion
+    if spec.stream is not None and used:
+        try:
+            sobj, sstep = spec.stream(frame, dip, dict(F.revive_params(preset or {}), Dt=DT))
+        except Exception as e:
+            sobj = None
+        if sobj is not None:
+            ctx.label('streamed')
+            q = np.array(clean[0], dtype=float)
+            dropped = np.zeros(n, dtype=bool)
+            for w in case['windows']:
+                dropped[int(w['start']):min(int(w['start']) + int(w['length']), n)] = True
+            for k in range(1, min(n, last_end + 3)):
+                try:
+                    q = np.array(np.asarray(sstep(q, fg[k], fa[k], fm[k])), dtype=float)
+                except ValueError:
+                    ctx.label('stream_refused_with_ValueError')
+                    if not dropped[k] and not dropped[max(k-1, 0)]:
+                        pass
+                    break
+                except Exception as e:
+                    ctx.fail(f'{tag}|stream|exception|{type(e).__name__}|{which}', f'sample {k}: {type(e).__name__}: {e}'[:200])
+                    break
+                if q.shape != (4,) or not np.all(np.isfinite(q)):
+                    ctx.fail(f'{tag}|stream|nonfinite|{which}', f'update returned {q.tolist()} at sample {k} (dropped: {bool(dropped[k])}) windows {case["windows"]}')
+                    break
+                if abs(float(np.linalg.norm(q)) - 1.0) > 1e-9:
+                    ctx.fail(f'{tag}|stream|nonunit|{which}', f'|q| = {float(np.linalg.norm(q))!r} at sample {k} (dropped: {bool(dropped[k])})')
+                    break
     try:
         faulty = run(spec, fg, fa, fm, frame, dip, seed, Qt[0], preset)
     except ValueError:
